@@ -1,5 +1,6 @@
 (* Submit/Example.v — a concrete instance of the oracles that satisfies the assumed contract
-   (non-vacuity of the C09 theorems) and the witnesses of the refuted part of C09_reject. *)
+   (non-vacuity of the C09 theorems) and the witnesses showing that the handler before the fix
+   commits answered non-acceptable requests with 500. *)
 From SL Require Import Base.BytesProofs Submit.Model Submit.Spec Submit.Proofs.
 From Coq Require Import ZifyN ZifyNat ZifyBool.
 Open Scope N_scope.
@@ -133,40 +134,46 @@ Proof.
   repeat split; try reflexivity; try discriminate.
 Qed.
 
-(* ---- the refuted part of C09_reject: a non-acceptable request can get 500 ---- *)
+(* ---- the handler BEFORE the fix commits ac90d60 / 48383da: "every rejection is a client
+   error" was false of it. Kept so that a regression to the old behaviour is explained. ---- *)
+Definition toy_handler_prefix := handler_prefix toy_parse toy_validate toy_build toy_sha.
 
-(* (1) for ANY oracles: a body longer than 128 KiB is answered 500 *)
-Lemma oversize_500 parse_body validate build sha ep roots win now body :
+(* (1) for ANY oracles: a body longer than 128 KiB was answered 500; it is answered 413 now *)
+Lemma prefix_oversize_500 parse_body validate build sha ep roots win now body :
   max_body < blen body ->
   ~ acceptable parse_body validate build sha ep roots win body /\
-  handler parse_body validate build sha ep roots win now body = Rejected 500.
+  handler_prefix parse_body validate build sha ep roots win now body = Rejected 500 /\
+  handler parse_body validate build sha ep roots win now body = Rejected 413.
 Proof.
-  intros H. split.
-  - intros [Hl _]. lia.
-  - unfold handler. destruct (max_body <? blen body) eqn:E; [reflexivity|].
-    apply N.ltb_ge in E. lia.
+  intros H. split; [intros [Hl _]; lia|].
+  unfold handler_prefix, handler, handler_gen.
+  destruct (max_body <? blen body) eqn:E; [split; reflexivity|].
+  apply N.ltb_ge in E. lia.
 Qed.
 
-(* (2) a precertificate whose chain validates but whose TBSCertificate x509.BuildPrecertTBS refuses *)
-Lemma tbs_failure_500 :
+(* (2) a precertificate whose chain validates but whose TBSCertificate x509.BuildPrecertTBS
+   refuses was answered 500; it is answered 400 now *)
+Lemma prefix_tbs_failure_500 :
   ~ acceptable toy_parse toy_validate toy_build toy_sha AddPreChain [[x09]] winX [x04; x08] /\
-  toy_handler AddPreChain [[x09]] winX 0 [x04; x08] = Rejected 500.
+  toy_handler_prefix AddPreChain [[x09]] winX 0 [x04; x08] = Rejected 500 /\
+  toy_handler AddPreChain [[x09]] winX 0 [x04; x08] = Rejected 400.
 Proof.
-  split; [|vm_compute; reflexivity].
+  split; [|vm_compute; split; reflexivity].
   intros (_ & raws & chain & leaf & Hp & _ & Hv & _ & _ & Hs).
   vm_compute in Hp. inversion Hp; subst raws.
   vm_compute in Hv. inversion Hv; subst chain.
   apply Hs. vm_compute. reflexivity.
 Qed.
 
-Theorem reject_4xx_refuted :
+Theorem prefix_reject_4xx_refuted :
   exists parse_body validate build sha, validate_contract validate /\
   exists ep roots win now body,
     ~ acceptable parse_body validate build sha ep roots win body /\
-    handler parse_body validate build sha ep roots win now body = Rejected 500.
+    handler_prefix parse_body validate build sha ep roots win now body = Rejected 500.
 Proof.
   exists toy_parse, toy_validate, toy_build, toy_sha. split; [exact toy_contract|].
-  exists AddPreChain, [[x09]], winX, 0%Z, [x04; x08]. exact tbs_failure_500.
+  exists AddPreChain, [[x09]], winX, 0%Z, [x04; x08].
+  destruct prefix_tbs_failure_500 as (H1 & H2 & _). split; assumption.
 Qed.
 
 (* roots: grow, garbage, same PEM again, failed upload *)
